@@ -2,7 +2,7 @@
    scratch workspace of Lemmas.v section 10 (x_world: members a 2015, b 2021, c 2018; a and b share a lib.rs;
    a -> util at ext/util, b -> util (depname 5) or util2 (depname 7) at ext2/util, both outside the workspace).
    The computed results are the ones observed with the real cargo-fmt binary on that workspace.
-   Since the repairs 4ca8aa6 / 3ddf33c both switches of Model.v select the repaired code; the examples stated
+   Since the repairs 44e033c / 3ddf33c both switches of Model.v select the repaired code; the examples stated
    through get_targets / execute / exit_code_of show the repaired behaviour, those naming get_targets_recursive /
    exit_code the behaviour before the repairs. *)
 From Coq Require Import String Ascii ZArith Sorted.
@@ -172,7 +172,7 @@ Definition child_by_edition (s2018 : status) : invocation -> status :=
 Definition o_all : opts := MkOpts false false false [] None None [] true false.
 Example exit_code_3 : fst (execute (x_world 5 105 (child_by_edition (Exited 3))) 5 o_all) = 3%Z.
 Proof. vm_compute. reflexivity. Qed.
-(* since the repair (fix: commit 4ca8aa6) a signal death is a failure; before it this was 7 (the signal was dropped) *)
+(* since the repair (fix: commit 44e033c) a signal death is a failure; before it this was 7 (the signal was dropped) *)
 Example exit_signal_is_failure : fst (execute (x_world 5 105 (child_by_edition Signaled)) 5 o_all) = 1%Z.
 Proof. vm_compute. reflexivity. Qed.
 (* before the repair the signal death was dropped: the same statuses gave 7 *)
